@@ -76,6 +76,21 @@ Definition parent (ca : bool) (tasks : list nat) (tl : list ev) : pstate := fold
 
 Definition puts (tl : list ev) : list record := flat_map (fun e => match e with EvPut _ r => [r] | _ => [] end) tl.
 
+(* ---- the kind of queue: with an asynchronous queue the moment a record *arrives* is not the moment it was put; the caller's side sees
+   arrivals.  [arrive_late n tl]: the n-th put of the timeline arrives after everything else. *)
+Fixpoint arrive_late (n : nat) (tl : list ev) : list ev :=
+  match tl with
+  | [] => []
+  | EvPut t r :: tl' => match n with O => tl' ++ [EvPut t r] | S n' => EvPut t r :: arrive_late n' tl' end
+  | e :: tl' => e :: arrive_late n tl'
+  end.
+Definition seen_timeline (k : log_queue_kind) (late : option nat) (tl : list ev) : list ev :=
+  match k, late with
+  | LogQueueSync, _ => tl                  (* a put is an arrival *)
+  | _, Some n => arrive_late n tl
+  | _, None => tl
+  end.
+
 (* ---- correspondence case for the proxy: a script and the logger_func calls observed *)
 Definition record_eqb (a b : record) : bool :=
   match a, b with
